@@ -92,10 +92,11 @@ def run(res):
             # every matching cell, and the mismatching twin for every third form
             keep = []
             seen = {}
+            only_mismatch = {(t, f) for t, (_, _, forms) in matrix.TARGETS.items() for f, pm, pn in forms if pm is None}
             for c in cells:
                 k = (c[0], c[1])
                 seen.setdefault(k, len(seen))
-                if c[4] or seen[k] % 3 == 0:
+                if c[4] or seen[k] % 3 == 0 or k in only_mismatch:      # a form that can only fail on the target has no other cell
                     keep.append(c)
             cells = keep
         srcs = [matrix.program(t, pos, pat) for (t, f, pos, pat, m) in cells]
